@@ -582,7 +582,7 @@ Definition wf_item (i : item) : Prop :=
   | IForeign h name inner ename ews =>
       (exists c nm, name = c :: nm /\ is_letter c = true) /\ Forall namechar name /\
       to_hash (map lower name) = Ok h /\ to_hash (map lower ename) = Ok h /\ is_xml_hash h = true /\   (* svg math xml *)
-      (exists c r, inner = c :: r /\ (is_ws c = true \/ c = 62)) /\ xml_inner inner /\
+      (exists c r, inner = c :: r /\ (is_ws c = true \/ c = 62)) /\ xml_wf h true 0 inner = true /\
       Forall (fun c => is_letter c = true) ename /\ Forall (fun c => is_ws c = true) ews
   | IBogus c1 body => bogus_open c1 body /\ Forall (fun c => c <> 62) body
   | IPlain name attrs ws content =>
@@ -991,9 +991,28 @@ Proof.
     assert (0 <= k < 3) by (apply peekz_some in Hk; exact Hk).
     assert (k = 0 \/ k = 2) as [-> | -> ] by lia; vm_compute in Hk; discriminate.
   - exists 62, [60; 103; 47; 62]. split; [reflexivity|tauto].
-  - intros k Hk Hk1. destruct (Z.eq_dec k 1) as [->|Hne]; [vm_compute in Hk1; discriminate|].
-    assert (0 <= k < 5) by (apply peekz_some in Hk; exact Hk).
-    assert (k = 0 \/ k = 2 \/ k = 3 \/ k = 4) as [-> | [-> | [-> | -> ]]] by lia; vm_compute in Hk; discriminate.
+Qed.
+
+(* non-vacuity of the svg / math grammar with quotes and nested tags:
+   <svg a='>"</svg>' b=">'"><text x="1">5" 'pipe'</text><!-- " --><?pi '?><![CDATA["]]></g></SVG > *)
+Example html_wellformed_nonvacuous3 :
+  let inner := [32;97;61;39;62;34;60;47;115;118;103;62;39;32;98;61;34;62;39;34;62;
+                60;116;101;120;116;32;120;61;34;49;34;62;53;34;32;39;112;105;112;101;39;60;47;116;101;120;116;62;
+                60;33;45;45;32;34;32;45;45;62;60;63;112;105;32;39;63;62;60;33;91;67;68;65;84;65;91;34;93;93;62;60;47;103;62] in
+  let doc := [ IForeign html_hash_Svg [115; 118; 103] inner [83; 86; 71] [32]; IText [120] ] in
+  wf_doc doc /\ length (doc_obs doc) = 2%nat /\
+  exists tr, run no_tmpl 3 (new_lexer (doc_bytes doc)) = Ok tr /\
+    map (fun r => (fst (fst r), snd (fst r))) tr = [(SvgT, Some (mkSl 0 (len (doc_bytes doc) - 1))); (TextT, Some (mkSl (len (doc_bytes doc) - 1) 1)); (ErrorT, None)].
+Proof.
+  split; [|split; [reflexivity|eexists; split; vm_compute; reflexivity]].
+  cbn [wf_doc wf_item is_text is_plain].
+  split; [|split; [discriminate|split; [discriminate|]]].
+  - split; [eexists _, _; split; reflexivity|].
+    split; [repeat constructor; vm_compute; repeat split; discriminate|].
+    split; [vm_compute; reflexivity|]. split; [vm_compute; reflexivity|]. split; [vm_compute; reflexivity|].
+    split; [eexists _, _; split; [reflexivity|left; reflexivity]|].
+    split; [vm_compute; reflexivity|]. split; repeat constructor.
+  - split; [split; [discriminate|repeat constructor; discriminate]|]. split; [intros _; exact I|]. split; [discriminate|exact I].
 Qed.
 
 (* non-vacuity of the added constructs: <?xml><!-x></1><script>a<b</script><plaintext></p> *)
